@@ -387,7 +387,9 @@ def _node(kind, salt=0):
     if kind == "success":
         return N("success", {"t": "1500000000", "props": "4", "kind": "free", "status": "active", "creation": "1400000000", "expiration": "1600000000"})
     if kind == "failure":
-        return N("failure", {"reason": "401"})
+        # the reason is whatever the server, or the noise layer wrapping a failed handshake (reason = str(exception), empty for a decryption
+        # failure), puts there — or nothing at all
+        return N("failure", [{"reason": "401"}, {"reason": ""}, {}, {"reason": "not-authorized"}, {"reason": "401", "extra": "1"}][salt % 5])
     k = kind.split(":")[1]
     child = {"conflict": "conflict", "ack": "ack", "xmlNotWellFormed": "xml-not-well-formed", "unknown": "system-shutdown"}[k]
     # the kind marker alone, or next to the free-text child servers add (before or after it), or after a child the library does not know
